@@ -36,3 +36,36 @@ def set_deprecated(cls, flag: bool):
     elif not flag and xt._deprecated:
         xt.identifier = xt._deprecated_identifier
         xt._deprecated = False
+
+
+# ---- two classes that get deprecated one after the other (the identifier of a stored job changes twice)
+from experimaestro import Config  # noqa: E402
+
+
+class NewA(Config):
+    __xpmid__ = "dep.newa"
+    v: Param[int] = 0
+
+
+class OldA(NewA):
+    __xpmid__ = "dep.olda"
+
+
+class NewB(Config):
+    __xpmid__ = "dep.newb"
+    v: Param[int] = 0
+
+
+class OldB(NewB):
+    __xpmid__ = "dep.oldb"
+
+
+class Learn2(Task):
+    __xpmid__ = "dep.learn"
+    x: Param[int]
+    a: Param[NewA]
+    b: Param[NewB]
+    code: Meta[int] = 0
+
+    def execute(self):
+        pass
